@@ -1,0 +1,10 @@
+//go:build verif
+
+package discover
+
+// Contracts checked by /verif (gvc). This file contains comments only and is compiled only with -tags verif.
+// Property C15: malformed discovery packets are rejected without a panic: every slice and index expression of the packet
+// decoder is in bounds for all datagrams (hashing, signature recovery and RLP are abstracted).
+
+//@ func decodePacket(buf)
+//@   safety
